@@ -262,6 +262,17 @@ func runC19(c *Check) {
 						return l.T.Op == "isnil" && !l.Pos && l.T.Args[0].IsField("ReplicationLag")
 					}
 					c.Gate(gfa, st, fmt.Sprintf("classify:%s:known-lag", fn), "a host without known lag is never classified as (to be) optimised", hasLag)
+					if fn == "DisabledHosts" {
+						// "planned" means: not switched on in the registry AND still running with the master's settings. A host
+						// that already runs relaxed must count as optimising — balancing starts a planned host whenever nobody
+						// is optimising, and would then leave two relaxed replicas.
+						notEnabled := CmpLit("!=", func(t *Term) bool { return t.IsField("Status") }, func(t *Term) bool { return t.IsConst("enabled") })
+						sameSettings := func(l Lit) bool {
+							return l.Pos && p.IsCall(l.T, "(*mysql.ReplicationSettings).Equal", "(mysql.ReplicationSettings).Equal")
+						}
+						c.Gate(gfa, st, "classify:DisabledHosts:not-enabled", "a host is only planned if the registry does not say it is switched on", notEnabled)
+						c.Gate(gfa, st, "classify:DisabledHosts:not-relaxed", "a host is only planned if it still runs with the master's durability settings (a relaxed one is optimising)", sameSettings)
+					}
 				}
 			}
 		}
